@@ -1,7 +1,6 @@
 \* Order-independence of the specification on three-entry tables: one shard
-\* (first pattern; the orchestrator substitutes it from the seed) with all six
-\* orderings of every table.  Nothing is emitted (Mode "live" without queries
-\* would also evaluate the step machine; "perm" just builds tables).
+\* (a seventh of the tables; the orchestrator substitutes Shard from the seed)
+\* with all six orderings of every table.  Nothing is emitted.
 CONSTANTS U = "small" MaxLen = 3 EmitFrom = 99 Shard = 1 Perms = TRUE Families = 0 Mode = "gen"
 INIT Init
 NEXT Next
